@@ -86,6 +86,20 @@ def gen_sock(rng, tier, mode=None, boundary=None):
         reqs.append(dict(pl=spec, lat=lat, err=rng.random() < 0.2, echo=echo,
                          via='stream' if k < nstream else 'req'))
     rng.shuffle(reqs)
+    if boundary == 'abandon':
+        # a requester gives up on a slow request (`response_timeout` expires) and goes on with the next one on
+        # the same client; the late response of the abandoned request must not reach anybody else.  Requester i
+        # takes requests i, i+nthreads, ...: rounds of [abandoned A ...] [regular B ...]
+        nconn, nthreads = rng.choice([1, 1, 2]), rng.choice([1, 2, 4])
+        reqs = []
+        for _round in range(rng.choice([2, 3] if not big else [4, 8])):
+            la = rng.choice([60, 80, 120])
+            for i in range(nthreads):
+                reqs.append(dict(pl=_body_spec(rng, tier, [0]), lat=la, err=False, echo=False, via='req',
+                                 abandon=rng.choice([10, 20, 30])))
+            for i in range(nthreads):
+                reqs.append(dict(pl=_body_spec(rng, tier, [0]), lat=la + rng.choice([60, 150, 250]), err=rng.random() < 0.2,
+                                 echo=rng.random() < 0.5, via='req'))
     return dict(kind='sock', mode=mode, nconn=nconn, nthreads=nthreads, reqs=reqs,
                 srv_backlog=rng.choice([None, None, 1, 2, 8]), seed=rng.randrange(1 << 30), boundary=boundary)
 
@@ -211,6 +225,8 @@ def eval_sock(case, rep):
         if r['via'] != 'req':
             continue
         got = results.get(k)
+        if r.get('abandon') and got == ['abandoned']:
+            continue        # the requester's own `response_timeout` expired first: it holds no response at all
         if got is None:
             add('no-response', f'request {k} never returned (requester blocked or died)')
         elif got[0] == 'raised' and 'Timeout' in got[1]:
@@ -233,7 +249,16 @@ def eval_sock(case, rep):
             add(rule, f'stream input {x} paired with {y}, expected {expected(x)}')
     # 4. a response always finds its request registered (F17 window), nothing is left over
     registered = set()
+    given_up = {e[2] for e in ev if e[0] == 'submit' and isinstance(e[1], int) and 0 <= e[1] < len(reqs)
+                and reqs[e[1]].get('abandon') and results.get(e[1]) == ['abandoned']}
+    late_dropped = 0
     for e in ev:
+        if e[0] == 'unmatched' and e[1] in given_up:
+            # the response to a request its requester had given up on finds nothing registered: nobody is
+            # waiting for it, so dropping it is no violation by itself (what matters is that nobody ELSE gets
+            # it: `wrong-request`); the model replay still sees the id bookkeeping differ
+            late_dropped += 1
+            continue
         if e[0] == 'register':
             registered.add(e[1])
         elif e[0] == 'recv':
@@ -254,7 +279,8 @@ def eval_sock(case, rep):
     res = dict(monitors=mon, events=_shape(ev), raw_events=ev, results=results, stream_out=so,
                wall=rep.get('wall'), timing=rep.get('timing'), errors=rep.get('errors', []),
                reordered=_reordered(ev), drain_windows=_drain_windows(ev), nrecv=sum(1 for e in _shape(ev) if e[0] == 'recv'),
-               server_stopped=rep.get('server_stopped'), digests=dig, shutdown_problem=rep.get('shutdown_problem'))
+               server_stopped=rep.get('server_stopped'), digests=dig, late_dropped=late_dropped,
+               abandoned=sum(1 for v in results.values() if v == ['abandoned']), shutdown_problem=rep.get('shutdown_problem'))
     return res
 
 
@@ -403,7 +429,10 @@ def model_lines(cid, case, res):
     for w in order:
         f = int(w[3])
         k = k_of_fut.get(f)
-        results.append(f'{f}:{_resp(allres.get(k))}')
+        if allres.get(k) == ['abandoned']:
+            results.append(f'{f}:{w[4]}')       # nobody read this future: the value it was set to
+        else:
+            results.append(f'{f}:{_resp(allres.get(k))}')
     quiet = int(not res['monitors'])
     lines.append(f'end results={",".join(results) or "-"} sout={",".join(sout) or "-"} quiet={quiet}')
     return lines
